@@ -90,19 +90,25 @@ func (n *Named) Close(name string) error {
 		return errors.New("null pipe must not be closed")
 	}
 
+	io := n.pipes[name].Pipe
 	n.mutex.Unlock()
 
-	go closePipe(n, name)
+	go closePipe(n, name, io)
 	return nil
 }
 
-func closePipe(n *Named, name string) {
+// closePipe closes and removes the pipe Close was called for, after a grace
+// period. By then the name may be gone (closed twice, or deleted) or may belong
+// to a new pipe: only the pipe that was asked to be closed is touched.
+func closePipe(n *Named, name string, io stdio.Io) {
 	time.Sleep(2 * time.Second)
 
 	n.mutex.Lock()
 
-	n.pipes[name].Pipe.Close()
-	delete(n.pipes, name)
+	if n.pipes[name].Pipe == io {
+		io.Close()
+		delete(n.pipes, name)
+	}
 
 	n.mutex.Unlock()
 }
@@ -121,9 +127,8 @@ func (n *Named) Delete(name string) error {
 		return errors.New("null pipe must not be closed")
 	}
 
-	n.mutex.Unlock()
-
 	delete(n.pipes, name)
+	n.mutex.Unlock()
 	return nil
 }
 
